@@ -31,7 +31,7 @@ def required_counters(tier):
     return {'monitor:contains:CirclePixelRegion': 10, 'monitor:contains:EllipsePixelRegion': 10,
             'monitor:contains:RectanglePixelRegion': 10, 'monitor:contains:PolygonPixelRegion': 10,
             'monitor:contains:CompoundPixelRegion': 10, 'monitor:contains:PointPixelRegion': 5,
-            'monitor:contains:LinePixelRegion': 5, 'in_operator': 10}
+            'monitor:contains:LinePixelRegion': 5, 'in_operator': 10, 'history-steps': 50}
 
 
 def setup(obs):
@@ -39,7 +39,8 @@ def setup(obs):
 
 
 QKINDS = ['bbox', 'boundary', 'boundary', 'far', 'lattice', 'mixed']
-FORMS = [('scalar', None), ('empty', (0,)), ('1d', None), ('1d', None), ('2d', None), ('3d', (2, 1, 3))]
+FORMS = [('scalar', None), ('empty', (0,)), ('1d', None), ('1d', None), ('2d', None), ('3d', (2, 1, 3)),
+         ('2d-transposed', None), ('2d-fortran', None), ('1d-strided', None), ('2d-sliced', None), ('1d-reversed', None)]
 DTYPES = ['float64', 'float64', 'float64', 'float32', 'int64', 'int32']
 
 
@@ -58,7 +59,7 @@ def generate(rng, tier, shard, nshards):
             region = gen.pixel_region_spec(rng)
             lane = region['cls']
         form, shape = rng.choice(FORMS)
-        yield {'lane': lane, 'region': region,
+        yield {'lane': lane, 'region': region, 'history': rng.choice([0, 0, 0, 1, 3]),
                'q': {'kind': rng.choice(QKINDS), 'form': form, 'shape': shape, 'dtype': rng.choice(DTYPES),
                      'n': rng.choice([7, 33, 120, 400]), 'rs': rng.randrange(2 ** 31)}}
 
@@ -143,6 +144,19 @@ def make_queries(region, q):
         return regions.PixCoord(x[:3 * k].reshape(3, k), y[:3 * k].reshape(3, k))
     if form == '3d':
         return regions.PixCoord(x[:6].reshape(2, 1, 3), y[:6].reshape(2, 1, 3))
+    # non-C-contiguous memory layouts (views) - same values, different strides
+    if form in ('2d-transposed', '2d-fortran', '2d-sliced'):
+        k = max(2, len(x) // 3)
+        X, Y = x[:3 * k].reshape(3, k), y[:3 * k].reshape(3, k)
+        if form == '2d-transposed':
+            return regions.PixCoord(X.T, Y.T)                      # shape (k, 3), F-ordered view
+        if form == '2d-fortran':
+            return regions.PixCoord(np.asfortranarray(X), np.asfortranarray(Y))
+        return regions.PixCoord(X[:, ::2], Y[:, ::2])
+    if form == '1d-strided':
+        return regions.PixCoord(x[::3], y[::3])
+    if form == '1d-reversed':
+        return regions.PixCoord(x[::-1], y[::-1])
     return regions.PixCoord(x, y)
 
 
@@ -150,6 +164,17 @@ def run_case(case, obs):
     region = S.build(case['region'])
     pc = make_queries(region, case['q'])
     res = region.contains(pc)          # judged by the installed monitor
+    if case.get('history'):
+        # mutate-then-requery on the same object: the monitor's oracle reads the live parameters
+        import random
+        prng = random.Random(case['q']['rs'])
+        for _ in range(case['history']):
+            label = gen.mutate_live(region, prng)
+            obs.count('history-steps')
+            pc2 = make_queries(region, dict(case['q'], rs=prng.randrange(2 ** 31)))
+            region.contains(pc2)
+            region.contains(pc)
+        res = region.contains(pc)
     # the `in` operator
     if pc.isscalar:
         r2 = pc in region
